@@ -4,13 +4,14 @@ package main
 //
 // Space.  Trees over the names {a,b,c}: a root slot holds one of the kinds
 //   absent, F1, F2 (same size/metadata, other content -> "bitrot" shape), F3
-//   (other content, size, mtime), F1m (F1 with another mtime: metadata only),
+//   (other content, size, mtime), F3r (F3's two blobs in the other order), F1d
+//   (F1's blob twice: same SET of blob IDs as F1), F1m (F1 with another mtime: metadata only),
 //   F0n / F0e (empty file stored with "content":null / "content":[]),
 //   L1, L2 (symlink, two targets), DE (empty dir), D0 (dir{a:F1}),
 //   DB (dir{a:F1,b:L1} = the base's /b: an identical subtree), DBm (DB with
 //   another dir mtime: metadata only);
 // a slot inside a root directory holds one of
-//   absent, F1, F2, F3, F1m, F0n, F0e, L1, L2, E (empty dir), G (dir{x:F1}),
+//   absent, F1, F2, F3, F3r, F1d, F1m, F0n, F0e, L1, L2, E (empty dir), G (dir{x:F1}),
 //   G2 (dir{x:F2}).
 // Base tree B = {a:F1, b:DB, c:absent} (thorough also B' = {a:dir{a:F0e,b:G,c:F3},
 // b:L1, c:F1}).  An edit sets one slot (a root slot, or a slot inside a root
@@ -111,10 +112,10 @@ func (t *verifC53Tree) key() string {
 	return strings.Join(parts, " ")
 }
 
-var verifC53RootKinds = []string{"absent", "F1", "F2", "F3", "F1m", "F0n", "F0e", "L1", "L2", "DE", "D0", "DB", "DBm"}
-var verifC53SubKinds = []string{"absent", "F1", "F2", "F3", "F1m", "F0n", "F0e", "L1", "L2", "E", "G", "G2"}
+var verifC53RootKinds = []string{"absent", "F1", "F2", "F3", "F3r", "F1d", "F1m", "F0n", "F0e", "L1", "L2", "DE", "D0", "DB", "DBm"}
+var verifC53SubKinds = []string{"absent", "F1", "F2", "F3", "F3r", "F1d", "F1m", "F0n", "F0e", "L1", "L2", "E", "G", "G2"}
 var verifC53RootKindsQuick = []string{"absent", "F1", "F2", "F1m", "L1", "D0", "DB"}
-var verifC53SubKindsQuick = []string{"absent", "F1", "F3", "F1m", "L1", "G"}
+var verifC53SubKindsQuick = []string{"absent", "F1", "F3", "F3r", "F1d", "F1m", "L1", "G"}
 
 type verifC53Edit struct {
 	Root string `json:"root"`          // root slot
@@ -236,6 +237,12 @@ func verifC53Leaf(kind string) verifC53Entry {
 		return verifC53Entry{Type: "file", Content: "c2", Meta: "s11,t1"}
 	case "F3":
 		return verifC53Entry{Type: "file", Content: "c1+c2", Meta: "s22,t2"}
+	case "F3r":
+		// the blobs of F3 in the other order: same set of blob IDs, other content
+		return verifC53Entry{Type: "file", Content: "c2+c1", Meta: "s22,t2"}
+	case "F1d":
+		// F1's blob twice (a file that grew by a repeated chunk): same set of blob IDs as F1
+		return verifC53Entry{Type: "file", Content: "c1+c1", Meta: "s22,t2"}
 	case "F1m":
 		return verifC53Entry{Type: "file", Content: "c1", Meta: "s11,t2"}
 	case "F0n":
@@ -307,6 +314,12 @@ func (e *verifC53Env) leafNode(name, kind string, up restic.BlobSaver) *data.Nod
 		n.Type, n.Mode, n.Content, n.Size = data.NodeTypeFile, 0o644, restic.IDs{e.c2}, 11
 	case "F3":
 		n.Type, n.Mode, n.Content, n.Size = data.NodeTypeFile, 0o644, restic.IDs{e.c1, e.c2}, 22
+		n.ModTime = verifC53T2
+	case "F3r":
+		n.Type, n.Mode, n.Content, n.Size = data.NodeTypeFile, 0o644, restic.IDs{e.c2, e.c1}, 22
+		n.ModTime = verifC53T2
+	case "F1d":
+		n.Type, n.Mode, n.Content, n.Size = data.NodeTypeFile, 0o644, restic.IDs{e.c1, e.c1}, 22
 		n.ModTime = verifC53T2
 	case "F1m":
 		n.Type, n.Mode, n.Content, n.Size = data.NodeTypeFile, 0o644, restic.IDs{e.c1}, 11
